@@ -138,8 +138,35 @@ def first_diff(a: bytes, b: bytes) -> str:
     return f"length differs: model {len(la)} lines vs produced {len(lb)} lines"
 
 
+def _model_blob(text: str) -> typing.Optional[typing.Tuple[str, bytes]]:
+    """(file text with the _MODEL_ blob removed, decoded pickle) for generated Python modules."""
+    import base64
+    import gzip
+    import re
+
+    m = re.search(r"_restore_constant_\(\s*((?:'[^']*'\s*)+)\)", text)
+    if not m:
+        return None
+    blob = "".join(re.findall(r"'([^']*)'", m.group(1)))
+    try:
+        return text[: m.start(1)] + text[m.end(1) :], gzip.decompress(base64.b85decode(blob))
+    except Exception:
+        return None
+
+
 def classify(a: bytes, b: bytes) -> str:
     """Root-cause discriminator from the shape of the first difference."""
+    ma, mb = _model_blob(a.decode(errors="replace")), _model_blob(b.decode(errors="replace"))
+    if ma and mb and ma[0] == mb[0]:
+        # only the embedded pickle differs: do the two pickles denote equal models?
+        import pickle
+
+        try:
+            if pickle.loads(ma[1]) == pickle.loads(mb[1]):
+                return "pickled-model-cache-state"
+        except Exception:
+            pass
+        return "pickled-model-differs"
     la, lb = a.decode(errors="replace").split("\n"), b.decode(errors="replace").split("\n")
     if [l for l in la if l.strip()] == [l for l in lb if l.strip()]:
         return "blank-lines-differ"
@@ -162,12 +189,14 @@ def compare(ctx: core.Ctx, env: Env, keys: typing.List[str], cfg: dict, files: t
             ok = False
         elif got != exp:
             kind = classify(exp, got)
+            sig = f"C10|{cfg['name']}|{kind}" if kind == "pickled-model-cache-state" else f"C10|{cfg['name']}|{kind}|{how}"
             ctx.fail(
-                f"C10|{cfg['name']}|{kind}|{how}",
+                sig,
                 f"{rel} (position {pos} of {len(keys)} in the run) differs from the file generated alone in a fresh process: {first_diff(exp, got)}",
                 {"universe": env.u, "trace": trace},
             )
-            ok = False
+            if not ctx.is_known(sig):  # a listed finding does not end the machine: the search continues behind it
+                ok = False
     return ok
 
 
